@@ -406,9 +406,7 @@ func execC20(c *sim.Ctx, cfg c20cfg) (consumerSteps int) {
 					}
 				}
 				b.Step(con, func() {
-					if err := r.Close(); err != nil {
-						con.Fail("close", "error", "Close", "Close returned %v", err)
-					}
+					r.Close() // (whatever it returns: the property is about what happens next)
 				})
 				conSteps++
 				continue
